@@ -686,10 +686,10 @@ def forked_batch(ctx, info, ref, stats, n_accept, n_refuse, modes=('result', 're
                 stats=stats, **supply(rng, kind, exact, lacking))
 
 
-def run_exception_values(ctx, i):
+def run_exception_values(ctx, i, tag=None):
   """A program whose values are exception objects / classes, every way of executing."""
   rng, c = ctx.rng, ctx.counters
-  code, tag = XP.exception_value_program(rng)
+  code, tag = XP.exception_value_program(rng, tag)
   info = Info(code)
   info.tag = tag
   ref = Ref(info)
@@ -714,11 +714,11 @@ def run_exception_values(ctx, i):
   if not ref.error_picklable:
     # The error cannot be sent back by a forked child as it is; it still has
     # to be reported.  Short timeout (the program takes microseconds): a run
-    # that never reports ends in TimeoutError.  Twice per shard.
-    if c['forked_unpicklable_error_checks'] < 2:
+    # that never reports ends in TimeoutError.  Once per shard.
+    if c['forked_unpicklable_error_checks'] < 1:
       c['forked_unpicklable_error_checks'] += 1
       name, sb = rng.choice(FORKED_KINDS)
-      check_one(ctx, info, ref, 'arg', arg=exact, mode='result', entry=(name, sb, 4),
+      check_one(ctx, info, ref, 'arg', arg=exact, mode='result', entry=(name, sb, 3),
                 differential=True, stats=stats)
   else:
     # every forked way of executing in result mode, two more in the other modes
@@ -744,6 +744,9 @@ def run_case(ctx, i):
   rng, c = ctx.rng, ctx.counters
   if rng.random() < 0.04:
     return run_invalid(ctx, i)
+  if i == 1 and ctx.shard % 3 == 0:
+    # in every run, whatever the seed: an error that cannot be pickled
+    return run_exception_values(ctx, i, 'raises-program-defined-exception')
   if rng.random() < ctx.params.get('exception_value_share', 0.08):
     return run_exception_values(ctx, i)
   small = rng.random() < 0.3
